@@ -459,17 +459,18 @@ pub fn run(ctx: &'static Ctx) {
         shapes.par_iter().for_each(|(ni, nt)| {
             let (ni, nt) = (*ni, *nt);
             let f = Fill::b(2);
-            for order in 0..3 {
+            // orders 3 and 4: the same value in consecutive assignments (all cells one value, row- and column-major)
+            for order in 0..5 {
                 let mut cells: Vec<(usize, usize)> = (0..ni).flat_map(|i| (0..nt).map(move |j| (i, j))).collect();
                 match order {
-                    1 => cells.sort_by_key(|(i, j)| (*j, *i)),
+                    1 | 4 => cells.sort_by_key(|(i, j)| (*j, *i)),
                     2 => cells.reverse(),
                     _ => {}
                 }
                 if order > 0 && ni * nt > 300 && (ni + nt) % 4 != 0 {
                     continue;
                 }
-                let mut ops: Vec<HOp> = cells.iter().map(|(i, j)| HOp::Cell(*i as u8, *j as u8, ((i * nt + j) as u16).wrapping_mul(0x0101).wrapping_add(1))).collect();
+                let mut ops: Vec<HOp> = cells.iter().map(|(i, j)| HOp::Cell(*i as u8, *j as u8, if order >= 3 { 0x1234 } else { ((i * nt + j) as u16).wrapping_mul(0x0101).wrapping_add(1) })).collect();
                 for cut in [ops.len(), usize::MAX] {
                     if cut == usize::MAX {
                         ops.push(HOp::Cell(0, 0, 0xabcd));
@@ -545,19 +546,32 @@ pub fn run(ctx: &'static Ctx) {
             }
         });
         ctx.st(n.load(std::sync::atomic::Ordering::Relaxed));
-        ctx.engine("E3.hmat-shape-sweep", json!({"grid": g, "shapes": shapes.len(), "programs": n.load(std::sync::atomic::Ordering::Relaxed), "orders": ["row-major", "column-major", "reverse"]}));
+        ctx.engine("E3.hmat-shape-sweep", json!({"grid": g, "shapes": shapes.len(), "programs": n.load(std::sync::atomic::Ordering::Relaxed), "orders": ["row-major", "column-major", "reverse", "one value row-major", "one value column-major"]}));
         // SLIT: every L up to the grid size: all cells of the upper triangle assigned distinct values (both argument orders), then compared
         let lmax: u32 = if quick { 40 } else { 100 };
         let m = AtomicU64::new(0);
         let ls: Vec<u32> = (1..=lmax).chain([128, 200, 254, 255, 256, 257, 300, 400]).collect();
         ls.into_par_iter().for_each(|l| {
-            for order in 0..2 {
+            // orders 2..4: the SAME value in consecutive assignments (all cells one value; one value column by column; runs of
+            // three equal values): a "this repeats the previous call" shortcut keyed to a narrowed pair shows only then
+            for order in 0..5 {
                 let mut ops: Vec<SlitOp> = vec![];
+                let mut idx = 0u32;
                 for a in 0..l {
                     for b in a..l {
-                        let v = (11 + (a * 7 + b * 3) % 240) as u8;
-                        ops.push(if order == 0 { (a as u16, b as u16, v) } else { (b as u16, a as u16, v) });
+                        let v = match order {
+                            0 | 1 => (11 + (a * 7 + b * 3) % 240) as u8,
+                            2 => 20,
+                            3 => 0xfe,
+                            _ => (11 + (idx / 3) % 200) as u8,
+                        };
+                        idx += 1;
+                        ops.push(if order == 0 || order == 2 { (a as u16, b as u16, v) } else { (b as u16, a as u16, v) });
                     }
+                }
+                if order == 3 {
+                    // column by column instead of row by row
+                    ops.sort_by_key(|(a, b, _)| (*b.min(a), *a.max(b)));
                 }
                 if order == 1 {
                     ops.reverse();
